@@ -1,3 +1,5 @@
+let p_len = p_opt p_q
+let p_ext = function ENaN -> ps "[0]" | EInf -> ps "[1]" | EFin q -> ps "[2,"; p_q q; ps "]"
 let dispatch = function
   | "cc_bu" -> let w = next_mat next_q in p_list p_q (run_cc_bu w)
   | "cc_bd" -> let w = next_mat next_q in p_list p_q (run_cc_bd w)
@@ -5,5 +7,12 @@ let dispatch = function
   | "cc_wd" -> let w = next_mat next_q in p_list p_q (run_cc_wd w)
   | "trans" -> let w = next_mat next_q in let k = next_nat () in p_opt p_q (run_trans w k)
   | "deg" -> let w = next_mat next_q in let k = next_nat () in p_list p_q (run_deg w k)
+  | "dbin" -> let a = next_mat next_z in p_opt (p_mat (p_opt p_nat)) (run_dbin a)
+  | "dwei" -> let a = next_mat next_q in p_opt (p_pair (p_mat p_len) (p_mat p_nat)) (run_dwei a)
+  | "effbin" -> let a = next_mat next_z in p_opt p_ext (run_effbin a)
+  | "effwei" -> let a = next_mat next_q in p_opt p_ext (run_effwei a)
+  | "eloc_bin" -> let a = next_mat next_z in p_opt (p_list p_q) (run_eloc_bin a)
+  | "eloc_wei" -> let a = next_mat next_q in p_opt (p_list p_q) (run_eloc_wei a)
+  | "assort" -> let a = next_mat next_q in let w = next_bool () in let k = next_nat () in p_opt p_q (run_assort a w k)
   | f -> failwith ("unknown function " ^ f)
 let () = main dispatch
